@@ -89,21 +89,48 @@ func c10Run(t rt.TB, c c10Case) {
 	fail := func(class, msg string) {
 		rt.Report(t, rt.Failure{Property: "C10", Check: "subject-sequential", Op: name, Class: class, Msg: msg, Case: c})
 	}
+	// guarded: an operation on the subject while a self-cancelling subscriber is
+	// registered runs under a watchdog (the subscriber leaves from inside the delivery)
+	stuck := ""
+	guarded := func(what string, f func()) {
+		if len(selfCancel) == 0 {
+			f()
+			return
+		}
+		done := make(chan any, 1)
+		go func() {
+			defer func() { done <- recover() }()
+			f()
+		}()
+		select {
+		case r := <-done:
+			if r != nil {
+				panic(r)
+			}
+		case <-time.After(5 * time.Second):
+			stuck = what
+		}
+	}
+	errs := 0
 	for step, o := range c.Ops {
 		var pan any
 		func() {
 			defer func() { pan = recover() }()
 			switch o.K {
 			case 'N':
-				s.Next(o.V)
+				guarded("Next", func() { s.Next(o.V) })
 				m.Next(o.V)
 				legacy.Next(o.V)
 			case 'E':
-				s.Error(rt.Err(1))
-				m.Error("e1")
-				legacy.Error("e1")
+				// every Error of a history carries an error value of its own: the stored
+				// terminal is the FIRST one
+				errs++
+				e := errs
+				guarded("Error", func() { s.Error(rt.Err(e)) })
+				m.Error(fmt.Sprintf("e%d", e))
+				legacy.Error(fmt.Sprintf("e%d", e))
 			case 'C':
-				s.Complete()
+				guarded("Complete", func() { s.Complete() })
 				m.Complete()
 				legacy.Complete()
 			case 'S':
@@ -163,6 +190,10 @@ func c10Run(t rt.TB, c c10Case) {
 		}
 		where := fmt.Sprintf("%s after [%s] (step %d of [%s])", name, opsString(c.Ops[:step+1]), step, opsString(c.Ops))
 		if abort {
+			return
+		}
+		if stuck != "" {
+			fail("subject-stuck-when-a-subscriber-leaves-during-delivery", fmt.Sprintf("%s: %s did not return within 5s (a subscriber unsubscribes itself at its first value)", where, stuck))
 			return
 		}
 		if deadlocked {
